@@ -318,6 +318,21 @@ def pure_family():
     fam.append(("unassigned-locals-params", [flast], bin_("+", bin_("+", A, B), A)))
     fthree = assign("fthree", fn(["p", "q", "r"], block([iff(bin_(">", N("p"), I(0)), block([assign("la", N("p")), assign("lb", N("q")), assign("lc", N("r"))])), bin_("+", bin_("+", call("toa", N("la")), call("toa", N("lb"))), call("toa", N("lc")))])))
     fam.append(("unassigned-locals-3params", [fthree], bin_("+", bin_("+", call("fthree", I(0), I(8), I(9)), call("fthree", I(7), I(8), I(9))), call("fthree", I(0), I(5), I(6)))))
+    # a computation that follows a control-flow join: the statement before it may or may not have run (if without else, loops with zero
+    # iterations, one branch of an if/else), and ended in an assignment to the variable the computation starts with
+    upd = [("2op", assign("x", bin_("-", bin_("*", N("lo"), I(2)), N("x")))), ("3op", assign("x", bin_("+", bin_("-", bin_("*", N("lo"), I(2)), N("x")), I(0)))), ("1op", assign("x", bin_("+", N("x"), N("lo"))))]
+    tails = [("scaled", bin_("+", bin_("*", bin_("-", N("x"), N("lo")), I(3)), I(1))), ("chain", bin_("-", bin_("-", N("x"), N("lo")), I(1))), ("plain", bin_("*", N("x"), I(2)))]
+    for (un_, u), (tn, t) in itertools.product(upd, tails):
+        joins = {"if": iff(bin_("<", N("x"), N("lo")), u), "if-block": iff(bin_("<", N("x"), N("lo")), block([assign("z", I(1)), u])),
+                 "ifelse": ife(bin_("<", N("x"), N("lo")), u, assign("z", I(0))), "ifelse-swapped": ife(bin_(">=", N("x"), N("lo")), assign("z", I(0)), u),
+                 "while": wh(bin_("<", N("x"), N("lo")), u), "for": fr(["i"], [call("fromto", N("x"), N("lo"))], u)}
+        for jn, j in joins.items():
+            if (un_, tn) != ("2op", "scaled") and jn not in ("if", "while"):
+                continue
+            nm = "jn" + "".join(w[0] for w in (un_ + "-" + tn + "-" + jn).replace("-", " ").split()) + str(len(fam))
+            nm = "".join(ch if ch.isalpha() else "abcdefghij"[int(ch)] for ch in nm)
+            d = assign(nm, fn(["x", "lo"], block([j, t])))
+            fam.append(("join-%s-%s-%s" % (jn, un_, tn), [d], lst([call(nm, I(5), I(2)), call(nm, I(1), I(2)), call(nm, I(5), I(2))])))
     for n in (59, 61, 62, 63):
         fam.append(("unassigned-locals-%d" % n, [assign("gzero", I(0)), probe, dq], call("deepq", I(n))))
     for n in (5, 130, 200):
@@ -365,7 +380,7 @@ def c03_families(tier, seed, ids=None):
     out = []
     ss = []
     for (fname, defs, c), (hname, hist) in itertools.product(fam, histories()):
-        if tier == "quick" and (shash((fname, hname, seed)) % 3 != 0) and hname not in ("none",) and not fname.startswith(("closgen", "unassigned", "yieldval", "yielded-closure", "closures-yielded", "extend-twice")):
+        if tier == "quick" and (shash((fname, hname, seed)) % 3 != 0) and hname not in ("none",) and not fname.startswith(("closgen", "unassigned", "yieldval", "yielded-closure", "closures-yielded", "extend-twice", "join-if-2op", "join-while-2op")):
             continue
         items = list(defs) + list(hist)
         seen_defs = set()
